@@ -38,8 +38,18 @@ namespace
         std::mutex m;
         std::vector<std::string> ring;
         size_t next = 0;
+        std::set<int> company; // server-side descriptors of the companion's connections: not recorded (they would flood the ring)
         void add(const char* op, int fd, const void* buf, size_t len, ssize_t res, int err)
         {
+            {
+                std::lock_guard<std::mutex> g(m);
+                if (res >= 9 && op[0] == 'r' && memcmp(buf, "POST /cmp", 9) == 0)
+                    company.insert(fd);
+                else if (res == 0 || (res < 0 && err != EAGAIN))
+                    company.erase(fd); // closed: the number will be given to another connection
+                if (company.count(fd))
+                    return;
+            }
             char head[96];
             snprintf(head, sizeof head, "[%.4f t%lu] %s(fd %d, %zu) = %zd%s ", net::now_s(), (unsigned long)(std::hash<std::thread::id>()(std::this_thread::get_id()) % 1000), op, fd, len, res,
                      res < 0 ? (err == EAGAIN ? " EAGAIN" : " error") : "");
